@@ -407,7 +407,22 @@ def _truthy_names(test):
     return []
 
 
+def r14_12(chk):
+    chk.rule("R14.12", "recording a failure cannot itself fail: NotCompleted.__new__ looks up the source of whatever value failed (get_data_source on arbitrary user data) inside a try whose handler catches Exception -- the record is built inside _call's own except handler, so anything escaping here (TypeError from `data.get('info', {})['source']` when info is None ...) aborts apply_to / as_completed with a misleading traceback and no record for that input or the ones after it")
+    m = chk.repo.module(CP)
+    fn = m.func("NotCompleted.__new__")
+    calls = [c for c in walk_no_nested(fn) if isinstance(c, ast.Call) and (call_name(c) or "").split(".")[-1] == "get_data_source"]
+    if not calls:
+        raise AnalysisError("NotCompleted.__new__: get_data_source(...) not found")
+    for c in calls:
+        tries = [t for t in walk_no_nested(fn) if isinstance(t, ast.Try) and any(c is x for b_ in t.body for x in ast.walk(b_))]
+        broad = any(h.type is None or (_handler_types(h) & {"Exception", "BaseException"}) for t in tries for h in t.handlers)
+        chk.decide(broad, "R14.12", key(m, "NotCompleted.__new__", "source lookup cannot raise"), m.loc(c), "inside try / except Exception", f"`{norm(c)}` is guarded by {[sorted(_handler_types(h)) for t in tries for h in t.handlers] or 'nothing'}: a value whose source lookup raises another exception type makes the construction of the failure record raise")
+    chk.floor("R14.12", 1, "NotCompleted.__new__")
+
+
 def run(chk):
+    r14_12(chk)
     r14_10(chk)
     r14_9(chk)
     r14_8(chk)
